@@ -387,6 +387,7 @@ COMPONENTS = {
     "SkipList-cmp": ("skiplist", ["listz"], "SkipList", "OrderedMapTrace", "Trace_nk6.cfg"),
     "Roaring": ("roaring", ["setz"], "Roaring", "RoaringTrace", "Trace_thorough.cfg"),
     "FlexSlice": ("flex", [], "Slicez", "FlexTrace", "Trace.cfg"),
+    "NodeQueue": ("nodequeue", ["algz"], "MultiMatch", "NodeQueueTrace", "QueueTrace.cfg"),
     "DList": ("dlist", [], "DList", "DListTrace", "Trace_thorough.cfg"),
     "SList": ("slist", [], "SList", "SListTrace", "Trace.cfg"),
 }
